@@ -215,6 +215,15 @@ def run_case(ctx, case):
     else:
         ms = sorted(set([max(1, n - 1), n, n + 1, n + 3, 2 * n + 1]))
     ms = [m for m in ms if m >= 1][:6]
+    if case["via"] == "inv":
+        # the lazy inverse has no memory: applied again to a refilled buffer it returns what a fresh inverse returns
+        from cola.linalg import GMRES, inv
+        from harness.reuse import reuse_checks
+        m_ = ms[len(ms) // 2]
+        x0m_ = None if x0 is None else np.asarray(x0).reshape(n, -1)
+        bb = b.reshape(n, -1) if case["seed"] % 2 else b
+        b_other = (P.rng_for("c13reuse", case["seed"]).standard_normal(bb.shape) * max(float(np.abs(bb).max()), 1e-300)).astype(bb.dtype)
+        reuse_checks(ctx, lambda: inv(cola.ops.Dense(M), GMRES(max_iters=m_, tol=case["tol"], x0=x0m_)), bb, b_other, "inv(GMRES)", preds)
     prev = None
     eps = 2.3e-16
     for m in ms:
